@@ -1,31 +1,73 @@
-// Assumed std specs and trusted wrappers used by the alpha lexer (U-LEXA).
+// Assumed std specs and trusted wrappers used by the alpha lexer (U-LEXA).  Everything here is about `core`/`alloc`
+// items (char classification, integer parsing, UTF-8 of `String`), stated as in the std documentation.
 use vstd::utf8::*;
 use vstd::string::StringSliceAdditionalSpecFns;
 #[verifier::external_type_specification]
 #[verifier::external_body]
 pub struct ExParseIntError(core::num::ParseIntError);
 
-pub assume_specification[ u128::from_str_radix ](src: &str, radix: u32) -> (r: Result<u128, core::num::ParseIntError>)
-	requires 2 <= radix <= 36;
-pub assume_specification[ u32::from_str_radix ](src: &str, radix: u32) -> (r: Result<u32, core::num::ParseIntError>)
-	requires 2 <= radix <= 36;
-pub assume_specification[ u8::from_str_radix ](src: &str, radix: u32) -> (r: Result<u8, core::num::ParseIntError>)
-	requires 2 <= radix <= 36;
-pub assume_specification[ char::from_u32 ](x: u32) -> (r: Option<char>);
-pub assume_specification[ String::as_bytes ](s: &String) -> (r: &[u8]);
-pub assume_specification[ String::len ](s: &String) -> (r: usize);
-pub assume_specification[ char::encode_utf8 ](c: char, dst: &mut [u8]) -> (r: &mut str);
-pub assume_specification[ char::is_ascii_hexdigit ](c: &char) -> (r: bool);
-pub assume_specification[ char::is_ascii_digit ](c: &char) -> (r: bool);
-pub assume_specification[ char::is_ascii_graphic ](c: &char) -> (r: bool);
-pub assume_specification[ char::is_ascii ](c: &char) -> (r: bool);
+// digit value of a character in bases up to 36 (the definition of `char::to_digit`): 0-9, a-z and A-Z are 10..35
+pub open spec fn cdig(c: char) -> Option<nat> {
+	let v = c as u32;
+	if 48 <= v <= 57 { Some((v - 48) as nat) } else if 97 <= v <= 122 { Some((v - 87) as nat) } else if 65 <= v <= 90 { Some((v - 55) as nat) } else { None }
+}
+pub open spec fn is_dig(c: char, base: nat) -> bool { cdig(c) is Some && cdig(c)->0 < base }
+pub open spec fn all_dig(s: Seq<char>, base: nat) -> bool { forall|i: int| 0 <= i < s.len() ==> is_dig(#[trigger] s[i], base) }
+// positional value of a digit string; characters that are not digits of the base (the `_` separators) are skipped
+pub open spec fn cdigv(s: Seq<char>, base: nat) -> nat
+	decreases s.len()
+{
+	if s.len() == 0 { 0 } else if is_dig(s.last(), base) { cdigv(s.drop_last(), base) * base + cdig(s.last())->0 } else { cdigv(s.drop_last(), base) }
+}
+pub open spec fn is_scalar(x: nat) -> bool { x < 0xD800 || (0xE000 <= x && x <= 0x10FFFF) }
+
+pub assume_specification[ char::is_ascii_hexdigit ](c: &char) -> (r: bool)
+	ensures r == is_dig(*c, 16);
+pub assume_specification[ char::is_ascii_digit ](c: &char) -> (r: bool)
+	ensures r == is_dig(*c, 10);
 pub assume_specification[ char::is_digit ](c: char, radix: u32) -> (r: bool)
-	requires 2 <= radix <= 36;
+	requires 2 <= radix <= 36,
+	ensures r == is_dig(c, radix as nat);
+pub assume_specification[ char::is_ascii_graphic ](c: &char) -> (r: bool)
+	ensures r == (0x21 <= *c as u32 <= 0x7e);
+pub assume_specification[ char::is_ascii ](c: &char) -> (r: bool)
+	ensures r == (*c as u32 <= 0x7f);
+pub assume_specification[ char::from_u32 ](x: u32) -> (r: Option<char>)
+	ensures r is Some <==> is_scalar(x as nat), r is Some ==> r->0 as u32 == x;
+
+// <uN>::from_str_radix on a string of digits of the radix (no sign): the positional value, Err iff empty or too large.
+// (Nothing is said about strings containing other characters; the lexer never passes any.)
+pub assume_specification[ u128::from_str_radix ](src: &str, radix: u32) -> (r: Result<u128, core::num::ParseIntError>)
+	requires 2 <= radix <= 36,
+	ensures src@.len() == 0 ==> r is Err,
+		src@.len() > 0 && all_dig(src@, radix as nat) ==> (r is Ok <==> cdigv(src@, radix as nat) <= u128::MAX) && (r is Ok ==> r->Ok_0 == cdigv(src@, radix as nat));
+pub assume_specification[ u32::from_str_radix ](src: &str, radix: u32) -> (r: Result<u32, core::num::ParseIntError>)
+	requires 2 <= radix <= 36,
+	ensures src@.len() == 0 ==> r is Err,
+		src@.len() > 0 && all_dig(src@, radix as nat) ==> (r is Ok <==> cdigv(src@, radix as nat) <= u32::MAX) && (r is Ok ==> r->Ok_0 == cdigv(src@, radix as nat));
+pub assume_specification[ u8::from_str_radix ](src: &str, radix: u32) -> (r: Result<u8, core::num::ParseIntError>)
+	requires 2 <= radix <= 36,
+	ensures src@.len() == 0 ==> r is Err,
+		src@.len() > 0 && all_dig(src@, radix as nat) ==> (r is Ok <==> cdigv(src@, radix as nat) <= u8::MAX) && (r is Ok ==> r->Ok_0 == cdigv(src@, radix as nat));
+// RA10 target: `str::parse::<u128>()` is `u128::from_str_radix(s, 10)` (impl FromStr for u128)
+#[verifier::external_body]
+pub fn lexa_parse_u128(s: &str) -> (r: Result<u128, core::num::ParseIntError>)
+	ensures s@.len() == 0 ==> r is Err,
+		s@.len() > 0 && all_dig(s@, 10) ==> (r is Ok <==> cdigv(s@, 10) <= u128::MAX) && (r is Ok ==> r->Ok_0 == cdigv(s@, 10)),
+{ s.parse() }
+// RA8 target: `char::to_string` is the string consisting of that one character
 #[verifier::external_body]
 pub fn lexa_char_to_string(x: char) -> (r: String)
 	ensures r@ == seq![x]
 { x.to_string() }
-#[verifier::external_body]
-pub fn lexa_parse_u128(s: &str) -> (r: Result<u128, core::num::ParseIntError>)
-{ s.parse() }
+// String::len is the length in BYTES of the UTF-8 encoding; String::as_bytes is that encoding (vstd::utf8::encode_utf8,
+// the same function by which vstd specifies str::as_bytes); char::encode_utf8 returns the one-character string.
+pub assume_specification[ String::len ](s: &String) -> (r: usize)
+	ensures r == encode_utf8(s@).len(), (forall|i: int| 0 <= i < s@.len() ==> (#[trigger] s@[i]) as u32 <= 0x7f) ==> r == s@.len();
+pub assume_specification[ String::as_bytes ](s: &String) -> (r: &[u8])
+	ensures r@ == encode_utf8(s@);
+pub assume_specification[ char::encode_utf8 ](c: char, dst: &mut [u8]) -> (r: &mut str)
+	requires old(dst)@.len() >= 4,
+	ensures r@ == seq![c];
+// derive-generated Clone of Location (String, Range<usize>, usize, usize) is the identity
 impl Clone for Location { #[verifier::external_body] fn clone(&self) -> (r: Self) ensures r == *self { Location { source_filename: self.source_filename.clone(), span: self.span.clone(), line_number: self.line_number, line_offset: self.line_offset } } }
